@@ -47,6 +47,13 @@ class CombinedDataHandler:
             indices_with_null_val = data[result_cols].isna().any(axis=1)
             data.update(data[result_cols].fillna(value=0))
             data.loc[indices_with_null_val, "percent_expected_vote"] = 0
+            # the other live columns of these units (results_weights, results_dem, ...) are also unknown; leaving
+            # them NaN poisons every sum they enter (e.g. the predicted turnout of all aggregates in the
+            # bootstrap model), so they are zero as well
+            live_cols = [
+                col for col in current_data.columns if col in data.columns and col.startswith("results_")
+            ]
+            data.update(data.loc[indices_with_null_val, live_cols].fillna(value=0))
 
         self.n_minimum_for_outlier_detection_model = 20
         self.data = data
